@@ -156,7 +156,8 @@ PROPS = {
         "theorems": ["Sqlize.C05.split_invariant", "Sqlize.C05.calls_invariant", "Sqlize.C05.rejected_unchanged", "Sqlize.C05.parse_before_edit",
                      "Sqlize.C05.load_keeps_inv", "Sqlize.C05.rename_onto_existing_breaks", "Sqlize.readScript_inv", "Sqlize.fromString_inv", "Sqlize.C05.names_and_positions", "Sqlize.C05.names_positions_types", "Sqlize.C05.names_positions_types_options", "Sqlize.ReaderMysql.step_rel", "Sqlize.ReaderMysql.fidelity",
                      "Sqlize.C05.indexes_and_foreign_keys", "Sqlize.ReaderMysql.step_elems", "Sqlize.Table.removeColumn_raw",
-                     "Sqlize.C05.primary_key_table_level", "Sqlize.ReaderMysql.step_pk", "Sqlize.pkOf_strip"],
+                     "Sqlize.C05.primary_key_table_level", "Sqlize.ReaderMysql.step_pk", "Sqlize.pkOf_strip",
+                     "Sqlize.C05.postgres_fragment", "Sqlize.ReaderPg.step_rel", "Sqlize.ReaderPg.exec_bare", "Sqlize.Table.addColumn_merge_pg"],
         "suites": [{"name": "script"}],
         "corr_points": ["load", "state", "dump"],
         "rule": SCRIPT_RULE,
@@ -167,6 +168,8 @@ PROPS = {
                        "on column types and option kinds/values (names_positions_types_options), and on indexes and foreign keys, every record live "
                        "(Sqlize.C05.indexes_and_foreign_keys), and on primary keys declared at table level (primary_key_table_level; an inline key is kept as a "
                        "column option: two representations, recorded finding); "
+                       "the Postgres reader glue simulates the reference engine on its loss-free fragment (postgres_fragment: option-free CREATE TABLE / ADD COLUMN, "
+                       "DROP COLUMN, ALTER COLUMN TYPE, ALTER COLUMN DROP NOT NULL on unquoted names: tables, column names, positions, types); "
                        "every load (3 reader models, any split into calls) keeps slices and position maps consistent "
                        "(Sqlize.C05.load_keeps_inv, side condition: renames onto fresh names); split invariance of the reader model (state incl. cursor and pending position) and the rejection "
                        "clause (by definition + regenerated fact that every Parser* function parses before it edits). The fidelity clause "
